@@ -58,18 +58,18 @@ def register(reg):
                    **{"C16.dotted-path-assigns-in-the-sub-configuration": "implies(%s and persistent(fieldof(%s, %s)), dict_is_upd(%s._data, %s, result) and set_is_discard(%s._default_value_keys, %s)"
                                                                          " and (result is None or accepts(fieldof(%s, %s), result)))" % (TWO, SUB, TAIL, SUB, TAIL, SUB, TAIL, SUB, TAIL),
                       "C16.dotted-path-leaves-this-level-alone": "implies(%s, dict_same(self._data) and set_same(self._default_value_keys))" % TWO}),
-      raises={"C16.plain-key-is-attribute-assignment:" + k.split(".", 1)[1]: "implies(%s, %s)" % (NODOT, v) for k, v in rai.items()})
+      raises=dict({"C16.plain-key-is-attribute-assignment:" + k.split(".", 1)[1]: "implies(%s, %s)" % (NODOT, v) for k, v in rai.items()},
+                  **{"C06+C16.a-rejected-dotted-assignment-leaves-this-level-as-it-was": "implies('.' in key, dict_same(self._data) and set_same(self._default_value_keys))"}))
     # ---------------------------------------------------------------- command-line overrides (C16)
     NS = "ns_dict(args)"
+    ALL_NONE = 'forall("k:key", "implies(old(has(%s, k)), old(get(%s, k)) is None)")' % (NS, NS)
     C("support:cmdline_args_override", params={"config": "ref:Config", "args": "ref:Namespace", "ignore": "none|str|ref:list"},
       modifies=["$map@*", "$dom@*", "$len@*", "$keys@*", "$pos@*", "$items@*"] + KEYFILE_STATE + ADOPT,
       assumes={"A.options-are-strings": 'forall("k:key", "implies(has(%s, k), typeis(k, \'str\'))")' % NS},
       invariants={0: {"ignore-list": "typeis(ignore, 'ref:list') and implies(typeis(old(ignore), 'str'), seq_len(ignore) == 1 and seq_item(ignore, 0) == old(ignore)) and implies(typeis(old(ignore), 'ref:list') and truthy(old(ignore)), ignore is old(ignore))",
-                      "nothing-supplied-nothing-changed": 'implies(forall("k:key", "implies(has(%s, k), get(%s, k) is None)"), heap_unchanged() and fs_same())' % (NS, NS),
-                      "arguments-untouched": "dict_same(%s)" % NS}},
-      ensures={"C16.no-supplied-option-no-change": 'implies(forall("k:key", "implies(has(%s, k), get(%s, k) is None)"), heap_unchanged() and fs_same())' % (NS, NS),
-               "C16.arguments-untouched": "dict_same(%s)" % NS},
-      raises={"C16.arguments-untouched": "dict_same(%s)" % NS})
+                      "nothing-supplied-nothing-changed": "implies(%s, heap_unchanged() and fs_same())" % ALL_NONE}},
+      ensures={"C16.no-supplied-option-no-change": "implies(%s, heap_unchanged() and fs_same())" % ALL_NONE},
+      raises={})
     C("support:is_value_defined", params={"config": "ref:Config", "key": "str"}, returns="bool", modifies=["fresh", "ncalls"],
       ensures={
           "C12.defined-means-not-marked-default": "implies(%s, result == (not has(config._default_value_keys, key)))" % NODOT,
